@@ -35,6 +35,7 @@ type runResult struct {
 	Rows  []string // ZSON, as flowh formats them
 	DAG   string   // zfmt.DAG of the executed plan
 	Canon string   // canonical form of the executed plan (see canon.go)
+	Mode  string   // for a plan as analyzed: "seq" | "bag" | "" (see planMode in corpus.go)
 	Err   error
 }
 
@@ -85,6 +86,9 @@ func runProgram(ctx context.Context, program string, o runOpts, inputs ...string
 			return runResult{Err: fmt.Errorf("program has its own source; cannot declare a sort key")}
 		}
 		scan.SortKeys = parseSortKey(o.SortKey)
+	}
+	if o.NoOptimize {
+		res.Mode = planMode(job.Entry())
 	}
 	if !o.NoOptimize {
 		if err := job.Optimize(); err != nil {
